@@ -26,6 +26,8 @@ MCDispSmall == {"read", "release", "close", "stream"}
 MCNoDefects == {}
 MCTraitsNone == {}
 MCTraitsOldRelease == {"ReleaseLeavesUnfinishedOpen"}
+MCTraitsD2 == {"D2_ProxyReadErrorMisfiled"}
+MCTraitsOldReleaseD2 == {"ReleaseLeavesUnfinishedOpen", "D2_ProxyReadErrorMisfiled"}
 MCD14 == {"D14"}
 MCMutCloseNoRelease == {"M_CloseNoRelease"}
 MCMutFinallyNoRelease == {"M_FinallyNoRelease"}
